@@ -52,6 +52,8 @@ def concretise(cls, prog_text):
     if cls == "formatted":
         return F
     if cls == "shrinks":
+        if hash(prog_text) % 3 == 0:
+            return F.replace(b"\n", b"\r\n")            # differs from the result in its line terminators only
         t = F.replace(b" ", b"    ").replace(b"\n", b"\n\n\n") + b"\n\n"
         return t
     if cls == "grows":
@@ -461,6 +463,37 @@ def run_idem_scenario(idx, sc):
             problems.append({"clause": "second_run_rewrites", "detail": f"a second in-place run changed the file ({what})"})
         elif (os.stat(p).st_mtime_ns, os.stat(p).st_ino) != st:
             problems.append({"clause": "second_run_rewrites", "detail": f"a second in-place run rewrote the (identical) file ({what})"})
+        return problems, False
+    finally:
+        shutil.rmtree(root, ignore_errors=True)
+
+
+# ------------------------------------------------------------------------------------------------ C09 through the CLI
+
+def run_eol_scenario(idx, sc):
+    """sc: {text, file_eol: lf|crlf, option: lf|crlf}: files mode must leave exactly what stdin->stdout prints, also when the
+    file differs from it in nothing but its line terminators"""
+    root = tempfile.mkdtemp(prefix=f"n{idx}_", dir=CLI_ROOT)
+    problems = []
+    try:
+        args = ["-C", f"line_ending={sc['option']}"]
+        rc0, canon = oracle(sc["text"].encode(), ["-C", f"line_ending={sc['file_eol']}"])
+        if rc0 != 0:
+            return [], True
+        # the file: already formatted, with the terminators of `file_eol`
+        p = os.path.join(root, "eol.pas")
+        with open(p, "wb") as fh:
+            fh.write(canon)
+        rc, out, err = run_bin(args + [p], root)
+        exp = oracle(canon, args)[1]
+        now = open(p, "rb").read()
+        what = f"file terminators={sc['file_eol']} line_ending={sc['option']} text={sc['text'][:60]!r}"
+        if rc != 0:
+            return [], True
+        if now != exp:
+            problems.append({"clause": "configured_ending_everywhere", "detail": f"files mode left {now.count(bytes([13, 10]))} CRLF / {now.count(bytes([10]))} LF, stdin->stdout gives {exp.count(bytes([13, 10]))} CRLF / {exp.count(bytes([10]))} LF ({what})"})
+        if (sc["option"] == "crlf") != (bytes([13, 10]) in exp) and bytes([10]) in exp:
+            problems.append({"clause": "configured_ending_everywhere", "detail": f"the result does not use the configured terminator ({what})"})
         return problems, False
     finally:
         shutil.rmtree(root, ignore_errors=True)
